@@ -19,7 +19,7 @@ def http_scenarios(quick):
     ]
     bodies = [("none", 0), ("buffer", 1), ("buffer", 4096), ("reader", 17), ("seeker", 300), ("stream", 65536), ("stream", 5), ("empty", 0)]
     rctxs = ["background", "todo", "cancellable", "values", "deadline"]
-    pols = [["retry"], ["retry", "timeout"], ["timeout", "retry"], ["retry", "hedge"], ["breaker", "retry"], ["fallback", "retry", "timeout"], [], ["retrybo"]]
+    pols = [["retry"], ["retry", "timeout"], ["timeout", "retry"], ["retry", "hedge"], ["breaker", "retry"], ["fallback", "retry", "timeout"], [], ["retrybo"], ["retryx"]]
     combos = list(itertools.product(range(len(scripts)), range(len(bodies)), rctxs, range(len(pols)), ["none", "values"], ["roundtripper", "request"]))
     if quick:
         combos = combos[::11]
@@ -27,6 +27,10 @@ def http_scenarios(quick):
     forced = [(si, bi, "background", 0, "none", via) for si in (len(scripts) - 2, len(scripts) - 1) for bi in range(len(bodies)) for via in ("roundtripper", "request")]
     bodies.append(("stream", 600000))       # larger than what net/http's server drains on its own after an early answer
     forced += [(si, len(bodies) - 1, "background", 0, "none", via) for si in (len(scripts) - 2, len(scripts) - 1) for via in ("roundtripper", "request")]
+    # always: the adapter's default retry policy running out of retries (the caller gets the LAST response inside the ExceededError)
+    scripts.append([R(429, 0), R(503), R(500)])
+    scripts.append([R(500), R(err="conn"), R(err="conn")])
+    forced += [(si, bi, rc, len(pols) - 1, "none", via) for si in (4, len(scripts) - 2, len(scripts) - 1) for bi in (0, 3) for rc in ("background", "values") for via in ("roundtripper", "request")]
     for si, bi, rc, pi, ec, via in forced + combos:
         if not pols[pi] and len(scripts[si]) > 1:
             continue
